@@ -246,6 +246,10 @@ def clause_names(c):
     return set(c[k] for k in ks if c[k] != "")
 
 
+BINDER_KEYS = ("SBinding", "SAlias", "STypeAlias", "SIDAlias", "PBinding", "PAlias", "PIDAlias", "PAnchorBinding", "PAnchorAlias",
+               "OBinding", "OAlias", "OTypeAlias", "OIDAlias", "OAnchorBinding", "OAnchorAlias")
+
+
 def static_classes(case):
     """syntactic defect classes of a statement (classes whose repair is not modelled as a flag)"""
     out = set()
@@ -254,6 +258,8 @@ def static_classes(case):
     for i, c in enumerate(cls):
         if clause_interval(c):
             out.add("C03-interval")
+        if c["OIDAlias"] != "" and sum(1 for k in BINDER_KEYS if c[k] == c["OIDAlias"]) > 1:
+            out.add("C03-oid-unchecked")
         if clause_interval(c) and (c["PLowerBoundAlias"] != "" or c["PUpperBoundAlias"] != ""):
             out.add("C03-interval-alias")
         if c["Optional"] and not bound and not clause_spec3(c):
@@ -282,6 +288,8 @@ def classify(case, verdict):
         return "C03-spec3-after-bound", "fully specified clause after bound ones: AppendTable error"
     if "C10-spec3-alias" in st and (res == "err" or (res == "ok" and len(case["result"]["rows"]) < n)):
         return "C10-spec3-alias", "fully specified OPTIONAL clause with alias: error or rows dropped"
+    if "C03-oid-unchecked" in st and res == "ok":
+        return "C03-oid-unchecked", "ID alias on a node object reuses a name of the clause: written without the validBinding test"
     if "C10-optional-unbound" in st and res == "ok" and len(case["result"]["rows"]) < n:
         return "C10-optional-unbound", "OPTIONAL clause processed while the table has no bindings: appended, not left-joined"
     if "C03-interval" in st and (res in ("ok", "panic", "crash") or "C03-interval-alias" in st):
